@@ -124,7 +124,10 @@ def strategy(tier):
     _parts = stdvals.std_strategy(S)
     # (naive times only: tzinfo objects print through their repr, which knows no depth)
     _naive = lambda r: r[:3] + [None] + r[4:]
-    gleaf = st.one_of(gleaf, gleaf, gleaf, _parts['timedelta'], _parts['date'], _parts['time'].map(_naive), _parts['datetime'].map(_naive), _parts['uuid'])
+    gleaf_ = st.one_of(gleaf, gleaf, gleaf, _parts['timedelta'], _parts['date'], _parts['time'].map(_naive), _parts['datetime'].map(_naive), _parts['uuid'])
+    # (st.deferred keeps the repr of these nested strategies short: Hypothesis formats it into event strings, and the
+    # fully expanded text of a strategy that is used at many places of a recursive one runs into gigabytes)
+    gleaf = st.deferred(lambda: gleaf_)
 
     def gext(ch):
         return st.one_of(
@@ -145,9 +148,13 @@ def strategy(tier):
             st.tuples(ch, ch).map(lambda p: ['dcinst', 'DFrozen', [p[0], p[1]]]),
             st.tuples(ch, st.lists(ch, max_size=2)).map(lambda p: ['dcinst', 'AInner', [p[0], ['list', p[1]]]]),
         )
-    small = st.recursive(gleaf, gext, max_leaves=8)
+    small_ = st.recursive(gleaf, gext, max_leaves=8)
+    small = st.deferred(lambda: small_)
+    ghash_ = ghash
+    ghash = st.deferred(lambda: ghash_)
     parts = stdvals.std_strategy(S, payload=small, hashable=ghash)
-    std_tree = st.one_of(*[parts[k] for k in ('odict', 'ddict', 'deque', 'counter', 'chainmap', 'mproxy', 'ns', 'ntuple')])
+    std_tree_ = st.one_of(*[parts[k] for k in ('odict', 'ddict', 'deque', 'counter', 'chainmap', 'mproxy', 'ns', 'ntuple')])
+    std_tree = st.deferred(lambda: std_tree_)
     gtree = st.one_of(std_tree, st.recursive(st.one_of(gleaf, std_tree), gext, max_leaves=10))
     generic = st.fixed_dictionaries({
         'v': gtree, 'd': st.one_of(st.none(), st.integers(0, 4), st.integers(0, 9)), 'width': st.sampled_from([20, 79, 200]),
